@@ -553,7 +553,8 @@ class TransactionResult:
             return {k: tuple(v) if isinstance(v,list) else v for k,v in item.items()}
 
         def packed_list2tuple(item:dict):
-            return {k: list(map(tuple,v)) if k != 'rewards' and isinstance(v[0],list) else v for k,v in item.items()}
+            #a column can mix lists with None (rows missing the key) or scalars so every value has to be checked
+            return {k: [tuple(i) if isinstance(i,list) else i for i in v] if k != 'rewards' else v for k,v in item.items()}
 
         if version == 3:
             raise CobaException("Deprecated transaction format. Please revert to an older version of Coba to read it.")
